@@ -2,7 +2,7 @@
 import os, sys, json
 from . import core, runner
 
-TIERS = {'quick': {'calls': 2500, 'cache': 500}, 'thorough': {'calls': 200000, 'cache': 12000}}
+TIERS = {'quick': {'calls': 4500, 'cache': 800}, 'thorough': {'calls': 200000, 'cache': 12000}}
 
 def main(args):
     if args.replay:
